@@ -526,7 +526,8 @@ func (r *runner) Do(op []string) (string, bool) {
 		switch {
 		case len(fw) == 0 && inBuf:
 			return fmt.Sprintf("buf n=%d", len(tr.GetSpans())), true
-		case len(fw) == 1 && fw[0].sid == sid && !inBuf:
+		case len(fw) >= 1 && !inBuf:
+			// whatever reached the transmission during this step (normally exactly this span)
 			return "late " + fwdStr(fw), true
 		case len(fw) == 0 && !inBuf:
 			return "dropped", true
